@@ -13,6 +13,10 @@ COMMON_T1 = [("thread.c", f) for f in [
     "ABTI_ythread_schedule", "ABTI_ythread_run_child", "ABTI_ythread_switch_to_child_internal", "ABTI_ythread_switch_to_parent_internal",
     "ABTI_ythread_switch_to_sibling_internal", "ABTI_ythread_jump_to_parent_internal", "ABTI_ythread_jump_to_sibling_internal",
     "ABTI_ythread_yield", "ABTI_ythread_suspend", "ABTI_ythread_resume_and_push", "ABTI_ythread_exit", "ABTI_ythread_atomic_get_joiner",
+    "ABTI_ythread_exit_to", "ABTI_ythread_resume_exit_to", "ABTI_ythread_resume_yield_to", "ABTI_ythread_resume_suspend_to",
+    "ABTI_ythread_suspend_to", "ABTI_ythread_yield_to", "ABTI_ythread_thread_yield_to", "ABTI_ythread_suspend_join",
+    "ABT_thread_join", "ABT_thread_free", "ABT_thread_join_many", "ABT_thread_free_many", "ABT_thread_cancel", "ABT_thread_resume",
+    "ABT_thread_revive", "ABT_thread_migrate", "ABT_thread_migrate_to_pool", "ABT_thread_set_callback", "ABT_thread_yield_to",
     "ABTI_ythread_resume_joiner", "ABTI_thread_handle_request", "ABTI_thread_terminate", "ABTI_pool_add_thread", "ABTI_pool_push",
     "ABTI_pool_pop", "ABTI_pool_inc_num_blocked", "ABTI_pool_dec_num_blocked", "ythread_create", "thread_join", "thread_join_yield_thread",
     "thread_join_futexwait", "thread_join_busywait", "thread_free", "thread_revive", "ABTI_thread_handle_request_cancel",
